@@ -161,8 +161,25 @@ def rand_evrs(rng, n, maxlen):
     return out
 
 
-def sel_lists(rng, n_items, count, maxsize=5):
-    return [[rng.randint(1, n_items) for _ in range(rng.randint(1, maxsize))] for _ in range(count)]
+SAFE = set(ord(c) for c in "abcdefghijklmnopqrstuvwxyzABCDEFGHIJKLMNOPQRSTUVWXYZ0123456789._~^+")
+
+
+def text_safe(x):
+    """Can the `rpm -qa` / `yum list` text formats carry this triple?  (which lists are offered to those
+    parsers is a concretisation choice; the driver re-checks)"""
+    return bool(x["v"]) and bool(x["r"]) and set(x["v"]) | set(x["r"]) <= SAFE and all(48 <= c <= 57 for c in x["e"])
+
+
+def sel_lists(rng, items, count, maxsize=5):
+    """Package lists (as index sequences, order significant, repeats allowed) for newest / oldest; every
+    other list only uses triples that the text formats can carry."""
+    every = list(range(1, len(items) + 1))
+    safe = [i for i in every if text_safe(items[i - 1])]
+    out = []
+    for n in range(count):
+        pool = safe if n % 2 and len(safe) >= 2 else every
+        out.append([rng.choice(pool) for _ in range(rng.randint(1, maxsize))])
+    return out
 
 
 # ---- orchestration ---------------------------------------------------------
@@ -191,7 +208,7 @@ def build_jobs(blocks, rng, parts):
             if b["kind"] == "ver":
                 jobs.append(dict(id=jid, kind="vrows", strs=b["items"], rows=rows))
             else:
-                sel = sel_lists(rng, n, (b.get("nsel", 0) + len(chunks) - 1) // len(chunks))
+                sel = sel_lists(rng, b["items"], (b.get("nsel", 0) + len(chunks) - 1) // len(chunks))
                 jobs.append(dict(id=jid, kind="erows", evrs=b["items"], rows=rows, sel=sel, variant=rng.randint(0, 5)))
     jobs.append(dict(id="upstream-table/0", kind="table"))
     return jobs
@@ -217,8 +234,9 @@ def describe(trace, rej):
                 dict(id="replay/0", kind="erows", evrs=[a, b], rows=[1, 2], sel=[], variant=0))
     if ev["ev"] == "sel":
         pk = [trace["evrs"][i - 1] for i in ev["pk"]]
-        return ("InstalledRpms over %s: newest returned position %s, oldest position %s"
-                % ([show_evr(x) for x in pk], ev["mx"], ev["mn"]),
+        return ("%s holding %s (in this order; it reports %s of them): newest -> position %s, oldest -> %s, "
+                "get_max -> %s, get_min -> %s (0: none of them, -1: raised)"
+                % (ev["via"], [show_evr(x) for x in pk], ev["n"], ev["mx"], ev["mn"], ev["gmx"], ev["gmn"]),
                 dict(id="replay/0", kind="erows", evrs=pk, rows=[], sel=[list(range(1, len(pk) + 1))], variant=0))
     return ("event %r" % (ev,), None)
 
@@ -238,9 +256,7 @@ def selftest(traces):
                 elif want == "erow":
                     e["ops"][-1][3] = not e["ops"][-1][3]
                 else:
-                    e["mx"], e["mn"] = e["mn"], e["mx"]
-                    if e["mx"] == e["mn"]:
-                        e["mx"] = 0
+                    e["gmx"] = 0                      # "returned none of the packages"
                 muts.append(dict(id="selftest-" + want, strs=t["strs"], evrs=t["evrs"], events=[evs[0], e]))
                 break
     val = validate(muts, jobs=1)
@@ -287,7 +303,7 @@ def run(prop, tier):
             r.cases = []
             models.append(r)
             blocks.append(dict(name=c["name"], kind="ver" if c["mode"] == "ver" else "evr", items=items,
-                               nsel=(1500 if tier == "quick" else 20000) if c["mode"] == "evr" else 0,
+                               nsel=(1200 if tier == "quick" else 12000) if c["mode"] == "evr" else 0,
                                cfg=c))
     print("timing: models %.1fs (%s)" % (time.time() - t0, ", ".join("%s:%d items" % (b["name"], len(b["items"]))
                                                                       for b in blocks)))
@@ -297,7 +313,7 @@ def run(prop, tier):
         blocks.append(dict(name="rand%d" % i, kind="ver", items=rand_family(rng, nfam[1], 12 if i % 2 == 0 else 24)))
     for i in range(nfam[2]):
         blocks.append(dict(name="randevr%d" % i, kind="evr", items=rand_evrs(rng, nfam[3], 10),
-                           nsel=500 if tier == "quick" else 4000))
+                           nsel=400 if tier == "quick" else 3000))
 
     t1 = time.time()
     jobs = build_jobs(blocks, rng, lib.NCPU)
@@ -310,13 +326,18 @@ def run(prop, tier):
         for k, v in o["stats"].items():
             stats[k] = stats.get(k, 0) + v
     print("timing: drivers %.1fs, %d traces, %s" % (time.time() - t1, len(traces), stats))
-    if not stats.get("vercmp_calls") or not stats.get("op_calls") or not stats.get("sel_calls"):
-        raise lib.MachineryError("driver did not reach all of the code under test: %s" % stats)
+    vias = ["json", "line", "yum-installed", "yum-available", "mixin", "extended"]
+    vacuous = None
+    if not stats.get("vercmp_calls") or not stats.get("op_calls") or not stats.get("sel_calls") \
+            or any(not stats.get("sel_" + v) for v in vias):
+        vacuous = "driver did not reach all of the code under test (every kind of RpmList included): %s" % stats
 
     t1 = time.time()
     val = validate(traces)
     print("timing: validation %.1fs (%d events, %d JVMs)" % (time.time() - t1, val["events"], val["jvms"]))
 
+    if vacuous and not val["rejected"]:
+        raise lib.MachineryError(vacuous)          # with rejections it is a verdict, not vacuity
     byid = dict((t["id"], t) for t in traces)
     rejected = {}
     for rj in val["rejected"]:
